@@ -553,6 +553,11 @@ func (k *caseT) verifyOne(c *ev.Ctx, h ev.Hist, t time.Time, tnote, name string,
 		}
 	case boundary:
 		h["Expired = true exactly on NotBefore / NotAfter"]++
+		// one consistent view: the certificate is the first element of every chain, so a result that calls the
+		// certificate itself outside its validity (Expired, strict) cannot list a chain as valid at the same instant
+		if res.Expired && len(res.CurrentChains) > 0 {
+			viol("Expired is true (VerifyTime exactly on NotBefore/NotAfter) and yet CurrentChains is not empty: the two date tests disagree on the boundary instant", "")
+		}
 	case res.Expired:
 		h["Expired = true"]++
 	default:
